@@ -22,7 +22,7 @@ RULE = ("histories of 4-24 events over 2-3 real BcastClientSide backends sharing
         "processed (quiescent point), then the server keyspace, every client's local copy (values, 'absent' markers, local deadlines), live "
         "recently-updated marks and started flags are dumped. non-trivial: some client answered a read from its local copy after another client had "
         "modified or the server had expired that key earlier in the history")
-TRUSTED_BASE = ["Coq 8.16.1 kernel + vm_compute", "functional_extensionality_dep (inherited from the server model's proofs; the C20 theorems themselves are closed)",
+TRUSTED_BASE = ["Coq 8.16.1 kernel + vm_compute", "functional_extensionality_dep (Coq.Logic.FunctionalExtensionality; through the server model's refinement theorem, used by C20_coherent)",
                 "hand-written model coq/Model/ClientSide.v over Model/Redis.v tied by this differential run (results + full dumps at every quiescent point)",
                 "harness/fake_redis: stand-in for redis-py and the server including CLIENT TRACKING BCAST redirect semantics (one invalidation per modified / expired key to every "
                 "tracking connection, the writer included; a flush message for FLUSHDB), written from the documentation",
@@ -30,6 +30,7 @@ TRUSTED_BASE = ["Coq 8.16.1 kernel + vm_compute", "functional_extensionality_dep
 ASSUMPTIONS = ["server reachable for commands (C19 covers an unreachable server); only the subscription connection is dropped", "TTLs are multiples of 0.125 s (local float deadlines and server ms deadlines coincide)",
                "counters stay positive"]
 EXHAUSTIVE = {"quick": False, "thorough": False}
+ALLOWED_AXIOMS = ["FunctionalExtensionality.functional_extensionality_dep"]   # through the server model's refinement theorem; named in TRUSTED_BASE
 U = sorted(["a", "b", "ab", "n"])
 VALUES = [1, 5, "x", "hello", b"raw", True]
 DEFAULT = "<default>"
